@@ -11,6 +11,7 @@ package httputil
 // enters m1 first and reaches h last (provided each middleware's handler
 // calls the handler it wrapped).
 func Wrap
+  loops 1
   requires all_set: forall i in 0..len(middlewares): middlewares[i] != nil
   ensures one_call_each: events() == len(middlewares)
   ensures nested_in_order: forall k in 0..len(middlewares):
